@@ -157,8 +157,8 @@ CLAIMED = {
              "from real connections. Tie: real QuicPacketBuilder + CryptoPair vs the model on exhaustive/random call sequences; "
              "budget formulas compared on every datagrams_to_send; wire oracle for sizes, padding and the 3x rule per address "
              "(rebinding, spoofed-source Initials, 0-RTT filling the window).",
-        note="Trusted: Lean kernel; standard axioms; harness/impl_builder.py, amp_scen.py; AQ.Model.Amplification has no line "
-             "protocol (tied by formula comparison + wire oracle); header sizes are inputs.",
+        note="Trusted: Lean kernel; standard axioms; harness/impl_builder.py, amp_scen.py; AQ.Model.Amplification is tied by its own `amp.` line protocol "
+             "(every receive/send/validate/promote step of real connections, incl. the budgets given to the builder); header sizes are inputs.",
         technique="Lean 4 arithmetic invariants over builder/path histories; differential correspondence; wire oracle",
         design="DESIGN.md §5 C13",
     ),
@@ -260,21 +260,26 @@ CLAIMED = {
              "0-RTT) replayed on the compiled model; wire oracle against the limits the sender had received.",
         note="Trusted: Lean kernel; standard axioms; harness/impl_flow.py (method wrapping for observation); hypotheses: transport "
              "parameters do not reduce remembered limits (RFC 9000 7.4.1; not checked by the code), delivery reports only for "
-             "non-blocked streams; retransmit_free and the FIN-only case rest on a C10 sender-buffer invariant taken as hypothesis.",
+             "non-blocked streams and (ghost_invariant, emitted_within_stream_limit incl. FIN-only frames, retransmit_free) naming a "
+             "frame emitted for that stream and not yet reported - the C10 hypothesis, under which every stream's send half is "
+             "connected to the C10 sender invariant (AQ.Stream.SInv); the check validates it on every real trace. Documented "
+             "tolerated behaviours: 0-RTT streams keep the remembered per-stream limit, MAX_STREAM_DATA for a still-blocked stream "
+             "is overwritten on unblock (theorems + examples in AQ.Props.C06).",
         technique="Lean 4 invariants over op sequences; call-level differential correspondence on real connections; wire oracle",
         design="DESIGN.md §5 C06",
     ),
     "C07": dict(
         text="Lean 4 theorems (AQ.Props.C07), no hypothesis on the peer: FLOW_CONTROL_ERROR / STREAM_LIMIT_ERROR / FINAL_SIZE_ERROR "
              "are raised if and only if the frame exceeds the limit in force / the stream count / contradicts the fixed final size "
-             "(STREAM and RESET_STREAM; a compliant peer is never accused), the enforced MAX_DATA equals the largest value ever "
-             "written (run level; MAX_STREAM_DATA one-step: stream_enforced_eq_advertised_partial), reassembly bytes <= limits, "
+             "(STREAM and RESET_STREAM; a compliant peer is never accused), the enforced MAX_DATA, MAX_STREAMS (bidi/uni) and per-stream "
+             "MAX_STREAM_DATA limits equal the largest value ever written (all three at run level: enforced_eq_advertised, "
+             "streams_enforced_eq_advertised, stream_enforced_eq_advertised), reassembly bytes <= limits, "
              "CRYPTO buffering <= 524288, remote challenges <= 32, peer-CID stock and pending retirements bounded. Tie: call-level "
              "correspondence on real connections with offsets/lengths/final sizes at limit-1, limit, limit+1, 2^62-1 on all stream "
              "types interleaved with limit updates and unbounded repetition loops; wire oracle against the limits put on the wire.",
-        note="Trusted: Lean kernel; standard axioms; harness/impl_flow.py; the run-level per-stream MAX_STREAM_DATA statement is not "
-             "proved (partial); a final size below data already received is accepted by the code (RFC 9000 4.5 observation, outside "
-             "the property text).",
+        note="Trusted: Lean kernel; standard axioms; harness/impl_flow.py; stream_enforced_eq_advertised assumes the fixes "
+             "1778857 and 51656a6 are in place (FixedQ); a final size below data already received is accepted by the code "
+             "(RFC 9000 4.5 observation, outside the property text).",
         technique="Lean 4 decision-logic iff theorems + invariants over op sequences; call-level differential correspondence; wire oracle",
         design="DESIGN.md §5 C07",
     ),
